@@ -385,6 +385,14 @@ def run(chk):
                        "the value passes through a float (`%s`) before it is stored as double" % txt(narrow[0])[:40] if narrow else "", "double precision all the way")
     chk.floor("C16-D7.precision", nprec, 4, "double-typed options set from the command line")
 
+    from rules import c16more
+    nini = c16more.init_rule(chk, db, "C16-D10.init")
+    chk.floor("C16-D10.init", nini, 150, "scalar members x constructors")
+    nro = c16more.readonly_rule(chk, db, "C16-D11.readonly")
+    chk.floor("C16-D11.readonly", nro, 20, "dispatched commands")
+    nlay = c16more.coeff_layout_rule(chk, db, "C16-D12.coefflayout")
+    chk.floor("C16-D12.coefflayout", nlay, 2, "copy statements of the writer of Fourier coefficients")
+
     return ("Static rule discharge on the tasgrid wrapper: command table coverage and uniqueness, dead alternatives and family predicates of the make dispatch, agreement of the tool's "
             "argument checks with the library's, sibling agreement of the output mapping and of the Fourier coefficient layout. The equivalence of outputs of command scripts with API "
             "call sequences needs execution and is not decided; these are necessary structural conditions only.")
